@@ -95,7 +95,7 @@ func main() {
 		}
 	case "C25":
 		e.Rep.Rule = idxRule
-		n := e.N(150, 1500)
+		n := e.N(45, 1200)
 		for i := 0; i < n; i++ {
 			runCase(genIdxProgram(e.Rng.Fork()))
 		}
